@@ -79,6 +79,26 @@ def rule_write(ctx):
                     ctx.ob("C17.WRITE", x, f"{mname}: mutation `{src(x)[:50]}` of a server-level container", recv.attr in allowed and "Server." in mname,
                            f"per-session code mutates `{src(recv)}`, a container shared by all sessions", construct=f"{mname}:{src(recv)}.{x.func.attr}")
     ctx.floor("C17.WRITE", 3, "server-level stores")
+    # in-place mutation of an object taken from a class-level attribute of Server (one object for every session)
+    class_attrs = {t.id for n_ in p.cls("Server").body if isinstance(n_, ast.Assign) for t in n_.targets if isinstance(t, ast.Name)}
+    for m in session_functions(p):
+        shared = set()
+        for n_ in walk_no_nested(m):
+            if isinstance(n_, ast.Assign) and isinstance(n_.value, ast.Attribute) and isinstance(n_.value.value, ast.Name) and n_.value.value.id in ("self", "cls", "Server") \
+                    and n_.value.attr in class_attrs:
+                for t in assign_targets(n_):
+                    if isinstance(t, ast.Name):
+                        shared.add(t.id)
+        for n_ in walk_no_nested(m):
+            for t in (assign_targets(n_) if isinstance(n_, (ast.Assign, ast.AugAssign, ast.Delete)) else []):
+                base = t
+                while isinstance(base, ast.Subscript):
+                    base = base.value
+                if isinstance(t, ast.Subscript) and isinstance(base, ast.Name) and base.id in shared:
+                    ctx.fail("C17.WRITE", n_, f"{p.qualname(m)}: `{src(n_)[:50]}` changes in place an object taken from a class-level attribute of the server "
+                             "(shared by every session: what one session writes into it shows up in the replies of the others)", construct=f"{p.qualname(m)}:mutates class-level {base.id}")
+            if isinstance(n_, ast.Call) and isinstance(n_.func, ast.Attribute) and n_.func.attr in MUTATORS and isinstance(n_.func.value, ast.Name) and n_.func.value.id in shared:
+                ctx.fail("C17.WRITE", n_, f"{p.qualname(m)}: `{src(n_)[:50]}` mutates an object taken from a class-level attribute of the server", construct=f"{p.qualname(m)}:mutates class-level {n_.func.value.id}")
     # module-level mutable state in server.py / common.py written from functions
     for mod in ("server.py",):
         mod_names = {t.id for n_ in p.trees[mod].body if isinstance(n_, ast.Assign) for t in n_.targets if isinstance(t, ast.Name)}
